@@ -12,7 +12,9 @@ META = dict(
          "decoded JSON and the CGI variables must equal the inputs.  Responses: 5 statuses x 3 header sets x 9 body kinds, 204 / 304 / 102 with the empty kinds, and HEAD requests answered with each body kind (lists, generators "
          "with empty yields, StopIteration value, write() callable, binary) x with/without Content-Length x chunkable or not, plus HTTPError "
          "raised at call time / first next / after an empty yield (4 statuses x reasons x header sets), are served by Responder and parsed by "
-         "Respondent; status, reason, headers and body must equal what the application produced.  Reuse: every ordered pair of 19 response "
+         "Respondent; status, reason, headers and body must equal what the application produced.  Every such response is additionally delivered to "
+         "the client in two receives cut at EVERY byte offset (parser serviced after each receive, with and without an idle pass in between) with "
+         "the same oracle.  Reuse: every ordered pair of 19 response "
          "kinds (fixed, chunked, generator streamed / fixed, empty, StopIteration value, write(), binary, 204 / 304 / 102 without Content-Length, "
          "HEAD answered with a body, HTTPError at three sites) x chunkable "
          "combinations is served by ONE Responder that is reset between the two the way Valet does on a persistent connection and parsed by ONE "
@@ -20,7 +22,7 @@ META = dict(
          "sequence of 1-3 requests over HEAD / GET / POST / DELETE on ONE keep-alive Patron against a real Valet (socket doubles), x Patron "
          "constructed with default method or HEAD x fixed-length or streamed app x requests issued one by one or queued at once; every response "
          "must match the app's output (no body for HEAD) and leave nothing in the receive buffer.",
-    note="Pure product of small sets, no sockets and no arrival schedules (C29 covers those); multipart form bodies, header values outside "
+    note="Pure product of small sets; arrival schedules only as two-piece fragmentation of the Responder's own output (C29 covers the general case); multipart form bodies, header values outside "
          "latin-1, duplicate header names and HTTPError raised after the head was sent are not exercised.  GET requests "
          "carry no body by ioflo's documented design, so the expected body for GET is empty.",
 )
@@ -314,27 +316,48 @@ def response_case(case, app, status, hdrs, body, chunkable, part, replay, method
     wire = b"".join(bytes(t) for t in ix.txes)
     replay["wire"] = wire
     delimited = bodiless(status, method) or chunkable or any(k.lower() == "content-length" for k, v in hdrs)
-    r = clienting.Respondent(msg=bytearray(), method=method)
-    steps, finished, exc, delivered = split.drive(r, [wire], close=not delimited, idle=1)
-    if exc is not None:
-        bad("raises:%s|%s" % (type(exc).__name__, innermost(exc)), "Respondent.parse raised %r on %r" % (exc, wire))
-        return "parse-raises"
-    if not finished:
-        bad("incomplete", "client still waits after the complete response %r" % wire)
-        return "incomplete"
-    if r.errored:
-        bad("errored", "client rejects the server's response: %s" % r.error)
-        return "errored"
-    code, sep, reason = status.partition(" ")
-    if r.status != int(code) or r.reason != reason:
-        bad("status", "status %r parsed as %r %r" % (status, r.status, r.reason))
-    for k, v in hdrs:
-        if r.headers.get(k.lower()) != v:
-            bad("headers", "header %s: %r parsed as %r" % (k, v, r.headers.get(k.lower())))
-    if bytes(r.body) != body:
-        bad("body", "body %r parsed as %r (wire %r)" % (body, bytes(r.body), wire))
-    if r.msg:
-        bad("leftover", "%d bytes %r of the response left in the client's receive buffer (wire %r)" % (len(r.msg), bytes(r.msg[:40]), wire))
+    def deliver(pieces, gaps=None):
+        """Fresh Respondent, pieces delivered with parse() after each (+ idle passes) -> list of (field, what)."""
+        r = clienting.Respondent(msg=bytearray(), method=method)
+        steps, finished, exc, delivered = split.drive(r, pieces, close=not delimited, idle=1, gaps=gaps)
+        if exc is not None:
+            return [("raises:%s|%s" % (type(exc).__name__, innermost(exc)), "Respondent.parse raised %r on %r" % (exc, wire))]
+        if not finished:
+            return [("incomplete", "client still waits after the complete response %r" % wire)]
+        if r.errored:
+            return [("errored", "client rejects the server's response: %s" % r.error)]
+        out = []
+        code, sep, reason = status.partition(" ")
+        if r.status != int(code) or r.reason != reason:
+            out.append(("status", "status %r parsed as %r %r" % (status, r.status, r.reason)))
+        for k, v in hdrs:
+            if r.headers.get(k.lower()) != v:
+                out.append(("headers", "header %s: %r parsed as %r" % (k, v, r.headers.get(k.lower()))))
+        if bytes(r.body) != body:
+            out.append(("body", "body %r parsed as %r (wire %r)" % (body, bytes(r.body), wire)))
+        if r.msg:
+            out.append(("leftover", "%d bytes %r of the response left in the client's receive buffer (wire %r)"
+                        % (len(r.msg), bytes(r.msg[:40]), wire)))
+        return out
+
+    problems = deliver([wire])
+    for field, what in problems:
+        bad(field, what)
+    if problems:
+        return problems[0][0] if problems[0][0] in ("incomplete", "errored") or problems[0][0].startswith("raises") else "differs"
+    # ---- fragmentation: the same wire bytes arrive in two receives, cut at every offset, the parser
+    # serviced after each receive, without and with one idle pass in between
+    nfrag = 0
+    for cut in range(1, len(wire)):
+        pieces = [wire[:cut], wire[cut:]]
+        for gaps in ((0,), (1,)):
+            nfrag += 1
+            for field, what in deliver(pieces, gaps):
+                part.violation("response-fragmented|%s" % field, "%s cut@%d%s" % (case, cut, " idle 1" if gaps[0] else ""),
+                               "response %s delivered as %s: %s" % (case, split.show(pieces, limit=400, gaps=gaps), what),
+                               dict(replay, cut=cut, pieces=pieces, idle_passes_between_pieces=list(gaps)))
+    part.notes["fragmented deliveries (2 receives, every offset, x idle pass)"] += nfrag
+    part.evaluations += nfrag
     return "ok"
 
 
@@ -347,8 +370,8 @@ def work_responses(arg):
     STORE[:] = [storing.Store(stamp=0.0)]
     part = core.Part()
     with core.watchdog(300):
-        if arg == "normal":
-            for method, statuses in (("GET", STATUSES + BODILESS_STATUSES), ("HEAD", STATUSES[:2])):
+        if arg[0] == "normal":
+            for method, statuses in ((arg[1], [arg[2]]),):
                 for status in statuses:
                     for headers in RHEADERS:
                         for kind in BODYKINDS:
@@ -670,7 +693,10 @@ def work(item):
 
 def run():
     ck = core.Check("C30", "exploration", META["technique"])
-    items = [("req", (m, p)) for m in METHODS for p in PATHS] + [("rsp", "normal"), ("rsp", "errors")]
+    # the fragmented response shards are the heaviest: dispatch them first
+    items = [("rsp", ("normal", m, st)) for m, sts in (("GET", STATUSES + BODILESS_STATUSES), ("HEAD", STATUSES[:2])) for st in sts]
+    items += [("rsp", ("errors",))]
+    items += [("req", (m, p)) for m in METHODS for p in PATHS]
     items += [("pair", i) for i in range(len(PAIRKINDS))]
     items += [("seq", (c, a, q)) for c in (None, "HEAD") for a in ("fixed", "streamed") for q in ("one-by-one", "all-at-once")]
     ck.merge(core.pmap(work, items))
@@ -698,6 +724,9 @@ def run():
         "by HTTP rules a response to HEAD and any 1xx / 204 / 304 response has no body: the body the client must see for those is empty whatever "
         "the application yields, the application's headers (including a Content-Length on a HEAD response) must still arrive, and no byte of "
         "such a response may stay in the client's receive buffer",
+        "fragmentation: the bytes the Responder produced are fed to a fresh Respondent as two receives (every offset 1..n-1), parse() after each "
+        "receive and optionally one idle parse() in between; the outcome must be the same round trip (status, headers, body, nothing left over); "
+        "the reused-Responder pairs and the Patron sequences are delivered unfragmented",
         "auto-added headers (Host, Accept-Encoding, Server, Date, Transfer-Encoding) are not compared except Host",
     ]
     return ck.finish(
